@@ -311,11 +311,7 @@ Theorem C03_edges_are_observed_direct : forall K st thr mode (lreads : list Pipe
   Permutation.Permutation (PipelineCheck.graph_kmers K st g) (PipelineCheck.retained K st thr (map fst lreads)) /\
   (forall w, In w (PipelineCheck.graph_links K st g) <-> In w (PipelineCheck.spec_links K st thr (map fst lreads))) /\
   (forall w, In w (PipelineCheck.graph_links K st g) <-> In w (observed_adjs K st (N.to_nat thr) (map fst lreads))).
-Proof.
-  intros K st thr mode lreads order g HK Hwf Hnd Hd.
-  destruct (E2eCorollaries.edges_are_observed_direct K st thr mode lreads order g HK Hwf Hnd Hd) as [H1 H2].
-  split; [exact H1|]. split; [exact H2|]. exact (E2eCorollaries.edges_are_observed_direct' K st thr mode lreads order g HK Hwf Hnd Hd).
-Qed.
+Proof. exact E2eCorollaries.edges_are_observed_direct_all. Qed.
 Print Assumptions C03_edges_are_observed_direct.
 
 (* the two Layer-S adjacency specifications coincide *)
